@@ -27,6 +27,7 @@ class AbstractDiscreteTimeOnlineInterpreter(AbstractOnlineInterpreter, DiscreteT
         self.set_variable_to_ast_from_dataset(dataset)
 
         # evaluate spec forest
+        self.updateVisitor.step = self.update_counter
         rob = self.updateVisitor.visitAst(self.ast, self.online_operator_dict, self.ast.var_object_dict)
         rob = rob[len(rob) - 1]
         self.ast.results = self.updateVisitor.results
@@ -76,6 +77,11 @@ class AbstractDiscreteTimeOnlineInterpreter(AbstractOnlineInterpreter, DiscreteT
 
 
 class DiscreteTimeOnlineUpdateVisitor(AbstractOnlineUpdateVisitor):
+    step = 0    # number of updates since the last reset()
+
+    def not_started(self, node):
+        return self.step < getattr(node, 'started_late', 0)
+
     def visitVariable(self, node, online_operator_dict, var_object_dict):
         var = var_object_dict[node.var]
         if node.field:  #TODO Tom did not understand this line.
